@@ -14,6 +14,7 @@ WT = '/tmp/mutwt.%d' % os.getpid()
 MAP = [
     (r'^src/avtp/Utils\.c$', ['C01', 'C02', 'C05', 'C11']),
     (r'^include/avtp/Byteorder\.h$', ['C13', 'C01', 'C02']),
+    (r'^include/avtp/.*\.h$', ['C03', 'C20', 'C01', 'C02', 'C12', 'C06']),
     (r'^src/avtp/acf/Can\.c$', ['C06', 'C01', 'C02', 'C04']),
     (r'^src/avtp/acf/CanBrief\.c$', ['C06', 'C01', 'C02', 'C04']),
     (r'^src/avtp/acf/custom/Vss\.c$', ['C07', 'C08', 'C09', 'C10', 'C01', 'C02']),
@@ -31,7 +32,9 @@ def sh(cmd, **kw):
 
 
 def files():
-    out = sh(['git', '-C', '/repo', 'ls-files', 'src', 'include/avtp/Byteorder.h', 'examples']).stdout.split()
+    out = sh(['git', '-C', '/repo', 'ls-files', 'src', 'include', 'examples']).stdout.split()
+    if os.environ.get('MUTATE_ONLY'):
+        out = [f for f in out if re.search(os.environ['MUTATE_ONLY'], f)]
     res = []
     for f in out:
         for pat, checks in MAP:
